@@ -324,10 +324,11 @@ class Balancer:
 
     @staticmethod
     def _unpack_truisms_and(c):
-        # every conjunct must hold: each is a truism itself, together with whatever it unpacks to (handing back only
-        # the latter left a conjunction of plain comparisons with nothing, and the And was then processed as if it
-        # were a comparison)
-        return set(c.args).union(*[Balancer._unpack_truisms(a) for a in c.args])
+        # Only what the conjuncts unpack to, not the conjuncts themselves: the bounds of one run are kept per
+        # expression in one table, whatever the signedness of the comparison they come from, and two conjuncts may
+        # bound the same expression with different signedness (w <s 5 && w >=u 3 would give w in [3, 4] and cut off
+        # 200).  A conjunction that is left over is skipped by _handleable_truism.
+        return set.union(*[Balancer._unpack_truisms(a) for a in c.args])
 
     @staticmethod
     def _unpack_truisms_not(c):
